@@ -2245,6 +2245,28 @@ def rule_lambda_names_by_evaluation(ctx, rep: Report, rid="W12"):
         rep.add(rid, f"{mname}:{kind}:the names passed to the call are the lambda's own parameters, in order", ok,
                 f"for parameters named {names} the lambda declares {own} and its body calls {callee_}({', '.join(passed or [])}): a name that is not a "
                 f"parameter of the lambda is not declared in that scope - the generated unit does not compile", f"{ci.mod.rel}:{fn.lineno}")
+    # __contains__(key): the element looked for is the lambda's own parameter
+    fn = prog.method("PybindWrapper", "_wrap_dunder")
+    ps = func_params(fn)
+    if fn is not None and ps[:5] == ["self", "method", "cpp_class", "prefix", "suffix"]:
+        d_ = _sample_callable("DunderMethod", ["in"], name="contains")
+        d_["args"]["args_list"] = d_["args"]["list"]()
+        env = {"self": me, "method": d_, "cpp_class": "ns::K", "prefix": "\n        ", "suffix": ""}
+        for p_, dv in zip(ps[len(ps) - len(fn.args.defaults):], fn.args.defaults):
+            env.setdefault(p_, ast.literal_eval(dv))
+        try:
+            text = mini_exec(fn, env, budget=6000, methods=methods)
+        except (_PathEval.Unknown, _Raised, TypeError, KeyError):
+            text = None
+        m_ = re.search(r"\[\]\(([^)]*)\)\s*\{(.*?)\}", text, re.S) if isinstance(text, str) else None
+        if m_:
+            evaluated += 1
+            params = [re.findall(r"[A-Za-z_]\w*", p)[-1] for p in m_.group(1).split(",") if p.strip()]
+            used = re.search(r"std::find\(\s*self->begin\(\)\s*,\s*self->end\(\)\s*,\s*([A-Za-z_]\w*)\s*\)", m_.group(2))
+            ok = used is not None and used.group(1) in params and used.group(1) != "self"
+            rep.add(rid, "_wrap_dunder:__contains__:the element looked for is the lambda's own parameter", ok,
+                    f"for a parameter named `in` the lambda declares {params} and its body looks for `{used.group(1) if used else '?'}`: a name that is not a parameter "
+                    f"of the lambda is not declared in that scope", f"{ci.mod.rel}:{fn.lineno}")
     rep.units["emitters_evaluated_on_samples"] = evaluated
     if evaluated == 0:
         rep.add(rid, "emitters evaluated on sample declarations", True, "none of the emitters could be run by the interpreter; W4 decides by structure", f"{ci.mod.rel}:0",
@@ -2322,3 +2344,205 @@ def rule_class_block_independent_of_earlier_classes(ctx, rep: Report, rid="P10")
                 rep.add(rid, f"{f_.name}:self.{self_attr(x)} (filled class by class) is not read into the emitted text", False,
                         f"`{unparse(stmt_of(x))[:60]}` reads what earlier classes of the run left behind", f"{ci.mod.rel}:{x.lineno}")
     rep.units["functions_in_the_per_class_emitter"] = len(closure)
+
+
+def _sample_pybind_class():
+    """A sample instantiated class `ns::K` (objects of the analyser) exercising every member kind of a class block."""
+    from .rules_matlab import SampleObj
+
+    def tn(name, ns=()):
+        return SampleObj(__kind__="Typename", name=name, namespaces=list(ns), instantiations=[])
+
+    def ty(name, ns=(), const="", ref="", ptr="", sp=""):
+        return SampleObj(__kind__="Type", typename=tn(name, ns), is_const=const, is_ref=ref, is_ptr=ptr, is_shared_ptr=sp,
+                         is_basic=name in ("double", "int", "size_t", "bool", "void"))
+
+    def mk_args(specs):
+        al = [SampleObj(__kind__="Argument", name=n, ctype=t, default=d, parent=None) for n, t, d in specs]
+        return SampleObj(__kind__="ArgumentList", args_list=al, parent=None)
+
+    def rt(t):
+        return SampleObj(__kind__="ReturnType", type1=t, type2="")
+    cls = SampleObj(__kind__="InstantiatedClass", name="K", parent_class="", template="", is_virtual=False, to_cpp=lambda: "ns::K",
+                    namespaces=lambda: ["", "ns"], instantiations=[], enums=[], dunder_methods=[])
+
+    def decl(kind, name, specs, ret=None):
+        m = SampleObj(__kind__="Instantiated" + kind, __bases__=[kind], name=name, args=mk_args(specs), parent=cls, template="", is_const="", to_cpp=lambda: name)
+        if ret is not None:
+            m["return_type"] = rt(ret)
+        return m
+    D = ("x", ty("double"), None)
+    cls["ctors"] = [decl("Constructor", "K", []), decl("Constructor", "K", [D, ("s", ty("double"), "1.0")])]
+    cls["methods"] = [decl("Method", "at", [("i", ty("size_t"), None), ("from", ty("double"), None)], ty("double")),
+                      decl("Method", "reset", [("s", ty("string", ("std",)), '"a, b"')], ty("void")), decl("Method", "at", [], ty("double")),
+                      decl("Method", "lambda", [], ty("int"))]
+    cls["static_methods"] = [decl("StaticMethod", "make", [D, ("other", ty("K", ("ns",), const="const", ref="&"), None)], ty("K", ("ns",))),
+                             decl("StaticMethod", "count", [], ty("size_t"))]
+    cls["properties"] = [SampleObj(__kind__="Variable", name="value", ctype=ty("double"), default=None),
+                         SampleObj(__kind__="Variable", name="fixed", ctype=ty("K", ("ns",), const="const", sp="*"), default=None)]
+    cls["operators"] = [SampleObj(__kind__="Operator", name="operator-", operator="-", is_unary=True, args=mk_args([]), return_type=rt(ty("K", ("ns",)))),
+                        SampleObj(__kind__="Operator", name="operator-", operator="-", is_unary=False,
+                                  args=mk_args([("o", ty("K", ("ns",), const="const", ref="&"), None)]), return_type=rt(ty("K", ("ns",)))),
+                        SampleObj(__kind__="Operator", name="operator()", operator="()", is_unary=False, args=mk_args([D]), return_type=rt(ty("double")))]
+    return cls
+
+
+def class_block_by_evaluation(ctx):
+    """(text of the class block the pybind generator emits for the sample class, the sample class) - or None when
+    wrap_instantiated_class cannot be run by the interpreter; cached."""
+    def mk():
+        from .rules_matlab import SampleObj, _PathEval, _Raised, mini_exec, program_classes
+        ci, prog = pw(ctx)
+        fn = prog.method("PybindWrapper", "wrap_instantiated_class")
+        ps = func_params(fn)
+        if len(ps) != 2:
+            return None
+        classes = program_classes(prog, ["ArgumentList", "Argument", "PybindWrapper", "Typename", "Type", "ReturnType"])
+        me = SampleObj(__kind__="PybindWrapper", python_keywords=sorted(keyword.kwlist), method_indent="\n        ", use_boost_serialization=False, xml_source="",
+                       _serializing_classes=[], _ipython_special_methods=["svg", "png", "jpeg", "html", "javascript", "markdown", "latex"], ignore_classes=[],
+                       _submodule_vars=[], module_name="mod", top_module_namespaces=[""])
+        init = ci.methods.get("__init__")
+        for st in (walk_no_nested(init) if init is not None else ()):
+            if isinstance(st, ast.Assign) and len(st.targets) == 1 and isinstance(st.targets[0], ast.Attribute) and unparse(st.targets[0].value) == "self":
+                try:
+                    me[st.targets[0].attr] = ast.literal_eval(st.value)
+                except Exception:
+                    pass
+        cls = _sample_pybind_class()
+        try:
+            text = mini_exec(fn, {ps[0]: me, ps[1]: cls}, budget=300000, methods=dict(ci.methods), classes=classes)
+        except (_PathEval.Unknown, _Raised, TypeError, KeyError, IndexError, AttributeError):
+            return None
+        return (text, cls) if isinstance(text, str) and "py::class_" in text else None
+    return ctx._get("pybind_class_block", mk)
+
+
+def _defs_of(text: str):
+    """The `.def...(` entries of a class block: [(kind, whole entry text)] split at top level."""
+    out, i = [], 0
+    for m in re.finditer(r"\.(def_static|def_readwrite|def_readonly|def_property\w*|def)\(", text):
+        if m.start() < i:
+            continue
+        depth, j, q = 0, m.end() - 1, None
+        while j < len(text):
+            ch = text[j]
+            if q:
+                if ch == "\\":
+                    j += 1
+                elif ch == q:
+                    q = None
+            elif ch in "\"'":
+                q = ch
+            elif ch in "([{":
+                depth += 1
+            elif ch in ")]}":
+                depth -= 1
+                if depth == 0:
+                    break
+            j += 1
+        out.append((m.group(1), text[m.start():j + 1]))
+        i = j + 1
+    return out
+
+
+def rule_class_block_by_evaluation(ctx, rep: Report, rid="A12", part="members"):
+    """The class block of the pybind module, produced by running wrap_instantiated_class (the analyser's own interpreter, program
+    classes for the argument lists) on a sample class with two constructors, overloaded and keyword-named methods, a void
+    method with a quoted default, static methods, a plain and a const shared-pointer property and unary / binary / call
+    operators.  part='members' (C03): one entry per declared member, of the kind it was declared as, in order.
+    part='forwarding' (C04): every lambda passes its own parameters, in order, to the entity of the same name, returns exactly
+    when the declaration is not void, and the py::arg list carries the declared names and default texts.  part='wellformed'
+    (C09): brackets, braces and quotes balance, and the block is one statement."""
+    ci, prog = pw(ctx)
+    got = class_block_by_evaluation(ctx)
+    fn = prog.method("PybindWrapper", "wrap_instantiated_class")
+    loc = f"{ci.mod.rel}:{fn.lineno}"
+    if got is None:
+        rep.add(rid, "class block evaluated on a sample class", True, "not evaluable; the structural rules decide", loc, nontrivial=False)
+        return
+    text, cls = got
+    defs = _defs_of(text)
+    probs = []
+    if part == "members":
+        inits = [d for k, d in defs if k == "def" and d.startswith(".def(py::init<")]
+        if len(inits) != len(cls["ctors"]):
+            probs.append(f"{len(inits)} constructor entries for {len(cls['ctors'])} declared constructors")
+        want_m = [("lambda_" if m["name"] in keyword.kwlist else m["name"]) for m in cls["methods"]]
+        got_m = [re.match(r'\.def\("([^"]+)"', d).group(1) for k, d in defs if k == "def" and re.match(r'\.def\("([^"]+)"', d)]
+        got_m = [g for g in got_m if not g.startswith("__")]
+        if got_m != want_m:
+            probs.append(f"methods are bound as {got_m}, declared are {want_m}")
+        got_s = [re.match(r'\.def_static\("([^"]+)"', d).group(1) for k, d in defs if k == "def_static" and re.match(r'\.def_static\("([^"]+)"', d)]
+        if got_s != [m["name"] for m in cls["static_methods"]]:
+            probs.append(f"static methods are bound as {got_s}, declared are {[m['name'] for m in cls['static_methods']]}")
+        got_p = [(k, re.search(r'\("([^"]+)"', d).group(1)) for k, d in defs if k.startswith("def_read")]
+        want_p = [("def_readonly" if p["ctype"]["is_const"] else "def_readwrite", p["name"]) for p in cls["properties"]]
+        if got_p != want_p:
+            probs.append(f"properties are bound as {got_p}, declared are {want_p}")
+        ops = [d for k, d in defs if k == "def" and ("py::self" in d or "operator" in d)]
+        if len(ops) != len(cls["operators"]):
+            probs.append(f"{len(ops)} operator entries for {len(cls['operators'])} declared operators")
+        rep.add(rid, "class block:one entry per declared member, of its own kind, in declaration order", not probs,
+                f"{probs[:3]}: the Python class then lacks a declared member, has one twice, or offers it under another name / kind", loc)
+    elif part == "forwarding":
+        by_decl = [(m, "self->") for m in cls["methods"]] + [(m, "ns::K::") for m in cls["static_methods"]]
+        lambdas = [(k, d) for k, d in defs if "[](" in d and '"__repr__"' not in d]
+        if len(lambdas) != len(by_decl):
+            probs.append(f"{len(lambdas)} lambda bindings for {len(by_decl)} methods and static methods")
+        for (m, recv), (k, d) in zip(by_decl, lambdas):
+            mm = re.search(r"\[\]\(([^)]*)\)\s*\{(.*)\}", d, re.S)
+            if not mm:
+                probs.append(f"{m['name']}: no lambda")
+                continue
+            params = [re.findall(r"[A-Za-z_]\w*", p)[-1] for p in mm.group(1).split(",") if p.strip()]
+            own = [p for p in params if p != "self"]
+            names = [a["name"] for a in m["args"]["args_list"]]
+            call = re.search(re.escape(recv) + re.escape(m["name"]) + r"\(([^()]*)\)", mm.group(2))
+            passed = [x.strip() for x in call.group(1).split(",") if x.strip()] if call else None
+            # (a parameter whose name is a Python keyword may carry a trailing underscore - consistently)
+            def same(a_, b_):
+                return a_ == b_ or (b_ in keyword.kwlist and a_ == b_ + "_")
+            if len(own) != len(names) or not all(same(a_, b_) for a_, b_ in zip(own, names)):
+                probs.append(f"{m['name']}: the lambda declares {own}, the method takes {names}")
+            elif passed != own:
+                probs.append(f"{m['name']}: the body calls {recv}{m['name']}({', '.join(passed) if passed is not None else '?'}), the lambda's parameters in declared order are ({', '.join(own)})")
+            void = m["return_type"]["type1"]["typename"]["name"] == "void"
+            if void == bool(re.search(r"\breturn\b", mm.group(2))):
+                probs.append(f"{m['name']}: {'returns a value although it is declared void' if void else 'drops the result of a non-void method'}")
+            tail = d[mm.end():]
+            pyargs = re.findall(r'py::arg\("([^"]+)"\)(\s*=\s*((?:"[^"]*"|[^,)])+))?', tail)
+            want = [(a["name"], a["default"]) for a in m["args"]["args_list"]]
+            gotp = [(n_, (dv.strip() if eq else None)) for n_, eq, dv in pyargs]
+            if len(gotp) != len(want) or not all(same(g_[0], w_[0]) and g_[1] == w_[1] for g_, w_ in zip(gotp, want)):
+                probs.append(f"{m['name']}: keyword arguments {gotp}, declared {want}")
+        rep.add(rid, "class block:every lambda forwards its own parameters in order and hands the result back; py::arg carries names and defaults", not probs,
+                f"{probs[:3]}", loc)
+    else:
+        stack, q, bad = [], None, None
+        pairs = {")": "(", "]": "[", "}": "{"}
+        i = 0
+        while i < len(text):
+            ch = text[i]
+            if q:
+                if ch == "\\":
+                    i += 1
+                elif ch == q:
+                    q = None
+            elif ch == '"':
+                q = ch
+            elif ch in "([{":
+                stack.append(ch)
+            elif ch in ")]}":
+                if not stack or stack.pop() != pairs[ch]:
+                    bad = f"unmatched `{ch}` at offset {i}"
+                    break
+            i += 1
+        if bad is None and (stack or q):
+            bad = f"unclosed {stack[-1] if stack else 'string literal'}"
+        if bad:
+            probs.append(bad)
+        body = text.strip()
+        if not body.endswith(";") or body.count(";") - sum(d.count(";") for _, d in defs) != 1:
+            probs.append("the block is not one statement ending in `;`")
+        rep.add(rid, "class block:brackets, braces and quotes balance and the block is one statement", not probs,
+                f"{probs[:2]}: the generated translation unit does not compile", loc)
